@@ -442,6 +442,13 @@ impl<T: Clone> RawTable<T> {
     /// Variant of `clone_from` to use when a hasher is available.
     pub(crate) fn clone_from_with_hasher(&mut self, source: &Self, hasher: impl Fn(&T) -> u64) {
         let _ = self.leftovers.take();
+        if self.table.len() == 0 {
+            // hashbrown's `clone_from_with_hasher` starts by clearing the destination, but its
+            // `clear` does nothing for a table without elements. Such a table may still be
+            // full of tombstones (everything was removed), and cloning into it makes
+            // hashbrown's `growth_left` bookkeeping underflow. Reset it for real.
+            self.table.clear_no_drop();
+        }
         self.table.clone_from_with_hasher(&source.table, &hasher);
         // Since we're doing the work of cloning anyway, we might as well carry the leftovers.
         and_carry_with_hasher(&mut self.table, &source.leftovers, hasher);
